@@ -20,6 +20,8 @@ type thread struct {
 	inQuiesce bool
 	started   bool
 	vc        []int // vector clock (race detector)
+	hasTimer  bool  // waiting in AwaitTimer: becomes runnable when the harness clock reaches timerAt
+	timerAt   int64
 }
 
 type pathAbort struct{}
@@ -147,16 +149,26 @@ func (e *Exec) reschedule(me *thread, canContinue bool) {
 		panic(pathAbort{})
 	}
 	var cands []*thread
-	for _, t := range e.threads {
-		if t == me {
-			if canContinue && !t.inQuiesce {
+	advanced := false // the clock was moved to a pending timer: the caller itself may be the one that is due
+	collect := func() {
+		cands = cands[:0]
+		for _, t := range e.threads {
+			if t == me {
+				if (canContinue || (advanced && e.enabled(t))) && !t.inQuiesce {
+					cands = append(cands, t)
+				}
+				continue
+			}
+			if !t.inQuiesce && e.enabled(t) {
 				cands = append(cands, t)
 			}
-			continue
 		}
-		if !t.inQuiesce && e.enabled(t) {
-			cands = append(cands, t)
-		}
+	}
+	collect()
+	if len(cands) == 0 && e.advanceToTimer() {
+		advanced = true
+		// every thread is blocked and a timer is pending: time passes until the earliest one is due
+		collect()
 	}
 	if len(cands) == 0 {
 		// only quiescing threads can run now
@@ -253,6 +265,41 @@ func (e *Exec) await(fr *frame, cond func() bool) {
 		e.reschedule(me, false)
 		me.blocked = nil
 	}
+}
+
+// advanceToTimer moves the harness clock to the earliest pending timer deadline; false when no thread waits
+// on a timer (or the clock is not a constant, which no harness produces).
+func (e *Exec) advanceToTimer() bool {
+	now := e.clockNow()
+	if !now.IsConst() {
+		return false
+	}
+	found := false
+	var min int64
+	for _, t := range e.threads {
+		if !t.done && t.hasTimer && t.blocked != nil && (!found || t.timerAt < min) {
+			found, min = true, t.timerAt
+		}
+	}
+	if !found || min <= int64(now.val) {
+		return false
+	}
+	e.clock = e.st.Const(64, uint64(min))
+	return true
+}
+
+// awaitTimer blocks until the harness clock has reached deadline or cond holds.
+func (e *Exec) awaitTimer(fr *frame, deadline int64, cond func() bool) {
+	me := fr.th
+	me.hasTimer, me.timerAt = true, deadline
+	e.await(fr, func() bool {
+		now := e.clockNow()
+		if !now.IsConst() || int64(now.val) >= deadline {
+			return true
+		}
+		return cond()
+	})
+	me.hasTimer = false
 }
 
 // quiesce blocks until no other thread can run.
